@@ -5,7 +5,7 @@ CONSTANTS
   Kind = "contacts"
   Atoms <- AtomsListQ
   Prefix <- PfxNone
-  MaxLen = 7
+  MaxLen = 6
   Cfgs <- CfgsCont0
   Junk = 34
   EmitOn = TRUE
